@@ -9,7 +9,7 @@ RULE = ("environments of 1-3 shapes of all kinds (simple bounded/unbounded, hole
         "pairwise boundaries in general position (exact test: only transversal crossings), int / Fraction coordinates "
         "(and a float stream for single | & -), expressions over | & - ^ ~ + * neg up to depth 3; judged at one point of "
         "every cell of the edge arrangement of all operands (complete for polygons); operands that share one complete boundary curve ((O-K)-K, (O-K)|K, (O-K)&~K, K-(O-K), ... for a polygon O with holes); curved stream: the cap under a parabola (one quadratic segment) "
-        "against polygons in general position, | & - both ways, closed-form membership oracle, half of the cases with a "
+        "against polygons in general position, | & - both ways, pairs of strictly convex polygons (the range of C01_*_sound_convex), closed-form membership oracle, half of the cases with a "
         "polygon corner inside the lens between an arc piece and its chord; a curated curved corpus (circle vs square / "
         "circle) runs in the thorough tier; non-trivial = the operand boundaries cross (>= 2 crossings) or an "
         "operand has a hole / second component, and no operand is Empty/Whole; distinct = SHA-1 of the case")
@@ -18,7 +18,7 @@ PROOF_STATUS = ("Props/C01.v: C01_expressions (all expressions from one-step sou
                 "operands' boundaries (boundary inclusion + constancy along polylines avoiding them, exact joins decidable per "
                 "instance); C01_union_sound / C01_intersection_sound / C01_difference_sound: one-step soundness of | & - for two simple ccw polygons "
                 "in the recombination branch (ray-sum argument; hypotheses decidable per instance except simplicity of the "
-                "operands); open: holed / multi-component operands in that branch (C01_partial)")
+                "operands, which is PROVED for strictly convex polygons: C01_*_sound_convex have only evaluated hypotheses); open: holed / multi-component operands in that branch (C01_partial)")
 TRUSTED_EXTRA = ["oracle: exact slab sampling of the edge arrangement + crossing-number regions (harness/oracle.py), cross-checked against the extracted Spec on a sample"]
 
 
@@ -26,6 +26,18 @@ def cases(ctx):
     yield from OC.gen_cases(ctx, ctx.n(36, 900), ctx.n(16, 500))
     # operands sharing one complete boundary curve: (O-K)-K, (O-K)|K, (O-K)&~K, ...
     yield from OC.law_cases(ctx.rng, ctx.n(16, 240))
+    # two strictly convex counter-clockwise polygons (triangles, convex quadrilaterals / pentagons) whose boundaries
+    # cross: for these C01_*_sound_convex have no hypothesis that is not evaluated (simple01 is proved)
+    rng = ctx.rng
+    nacc = 0
+    for i in range(ctx.n(12, 200)):
+        pair = [_convex_polygon(rng, rng.choice([3, 3, 4, 5])) for _ in range(2)]
+        if None in pair:
+            continue
+        env = [("S", G.verts_to_jordan(vs)) for vs in pair]
+        if OC.env_general_position(env) and OC.crossing_count(env) >= 2:
+            yield {"env": env, "expr": ("|&-"[nacc % 3], ("var", 0), ("var", 1)), "num": "frac", "convex": pair}
+            nacc += 1
     # curved operand with a closed-form oracle: the cap under a parabola against polygons (float data; no ^: F17)
     from .. import curved as C
     for i in range(ctx.n(12, 240)):
@@ -38,6 +50,19 @@ def cases(ctx):
         for i in range(24):
             yield {"curved": True, "r": rng.choice([1.0, 1.5, 0.8]), "c": [rng.choice([0.0, 0.31, -0.27]), rng.choice([0.0, 0.22])],
                    "side": rng.choice([1.7, 2.2, 1.3]), "nd": rng.choice([8, 16]), "op": "|&-"[i % 3]}
+
+
+def _convex_polygon(rng, n):
+    """n points in strictly convex position, counter-clockwise (rational points near a circle, sorted by angle)"""
+    import math
+    for _ in range(50):
+        c = (rng.randint(-4, 4), rng.randint(-4, 4))
+        r = rng.randint(3, 7)
+        angs = sorted(rng.uniform(0, math.tau) for _ in range(n))
+        vs = [(F(round((c[0] + r * math.cos(t)) * 4), 4), F(round((c[1] + r * math.sin(t)) * 4), 4)) for t in angs]
+        if len(set(vs)) == n and all(G.orient(vs[i], vs[j], vs[k]) > 0 for i in range(n) for j in range(i + 1, n) for k in range(j + 1, n)):
+            return vs
+    return None
 
 
 def nontrivial(case):
@@ -174,6 +199,19 @@ def check(ctx, case):
                     if (got == 1) != predicted or got not in (0, 1):
                         fails.append(Fail(kind="K", what="the conclusion of C01_%s_sound (hypotheses hold) is not what the implementation returned" % name,
                                           p=p, impl=got, model=predicted))
+        if case.get("convex") and exact:
+            va, vb = case["convex"]
+            op = e[0]
+            for p in pts[:: max(1, len(pts) // 4)][:4]:
+                ca, cb, hu, hi, hd, ja, jb = ctx.model.convex_hyps(va, vb, p)
+                if not (ca and cb) or [list(map(tuple, sg)) for sg in ja] != [list(map(tuple, sg)) for sg in env[0][1]] \
+                        or [list(map(tuple, sg)) for sg in jb] != [list(map(tuple, sg)) for sg in env[1][1]]:
+                    fails.append(Fail(kind="K", what="convex_ccw_b rejects a strictly convex counter-clockwise polygon, or poly_of is not the curve given to the implementation",
+                                      model=[ca, cb]))
+                    break
+                holds = {"|": hu, "&": hi, "-": hd}[op]
+                ctx.count("theorem C01_%s_sound_convex (no unevaluated hypothesis): %s" % ({"|": "union", "&": "intersection", "-": "difference"}[op],
+                                                                                      "covers the point" if holds else "hypotheses fail (vertex line)"))
         ctx.count("sample_points", len(pts))
         if wrong:
             fails.append(Fail(kind="O", what="result is not the set-theoretic combination at %d of %d sample points" % (len(wrong), len(pts)),
